@@ -309,8 +309,11 @@ class ParseMCNPCell:
         else:
             fillid_u = int(mcnp_float(first_arg))
         # the optional transformation is enclosed in parentheses
-        fill_params = [mcnp_float(token)
-                       for token in self.parse_parenthesized(kw_list)]
+        fill_params = self.parse_parenthesized(kw_list)
+        if len(fill_params) == 1:
+            fill_params = [mcnp_float(fill_params[0])]
+        else:
+            fill_params = self.expand_inline_transform(fill_params)
         if kw_list and kw_list[-1][0] in '0123456789.+-':
             msg = (f'unexpected entry {kw_list[-1]!r} after the universe '
                    'specifications of the FILL keyword')
@@ -336,8 +339,8 @@ class ParseMCNPCell:
                             0., 1., 0.,
                             0., 0., 1.]
         elif '*' in elt:
-            fill_params = [float(x) for x in fill_params]
-            fill_params[3:12] = list(map(to_cos, fill_params[3:12]))
+            fill_params[3:12] = [None if x is None else to_cos(x)
+                                 for x in fill_params[3:12]]
             fill_params = normalize_transform(fill_params)
         elif fill_params:
             # this is the case where the transform parameters were given inline
@@ -391,15 +394,31 @@ class ParseMCNPCell:
             trid = int(trcl_params[0])
             trcl_params = self.transforms[trid][:12]
             # no need to apply to_cos, MIP takes care of it
-        elif len(trcl_params) == 3:
-            trcl_params = [mcnp_float(param) for param in trcl_params[:12]]
-            trcl_params += [1., 0., 0.,
-                            0., 1., 0.,
-                            0., 0., 1.]
-        elif trcl_params:
-            # this is the case where the transform parameters were given inline
-            trcl_params = [mcnp_float(x) for x in trcl_params]
-            if '*' in elt:
-                trcl_params[3:12] = list(map(to_cos, trcl_params[3:12]))
-            trcl_params = normalize_transform(trcl_params)
+        else:
+            trcl_params = self.expand_inline_transform(trcl_params)
+            if len(trcl_params) == 3:
+                trcl_params += [1., 0., 0.,
+                                0., 1., 0.,
+                                0., 0., 1.]
+            elif trcl_params:
+                # this is the case where the transform parameters were given
+                # inline
+                if '*' in elt:
+                    trcl_params[3:12] = [None if x is None else to_cos(x)
+                                         for x in trcl_params[3:12]]
+                trcl_params = normalize_transform(trcl_params)
         return tuple(trcl_params)
+
+    @staticmethod
+    def expand_inline_transform(tokens):
+        '''Convert the entries of an inline transformation (between the
+        parentheses of TRCL or FILL) to numbers. The entries may use the same
+        shorthand as a TR card: `nJ` leaves the default (no displacement, an
+        entry of the matrix to be completed, m=1), `nR` repeats.'''
+        if not tokens:
+            return []
+        values = list(expand_data_card(list(tokens))[0])
+        values[:3] = [0.0 if value is None else value for value in values[:3]]
+        if len(values) == 13 and values[12] is None:
+            values[12] = 1
+        return values
